@@ -521,13 +521,34 @@ pub fn cmd_run(id: &str, tier_name: &str) -> ExitCode {
         // a file, in a single-threaded child (see envsim.rs)
         let report = format!("{VERIF}/target/tmp/c17std-{}.json", std::process::id());
         let _ = std::fs::create_dir_all(format!("{VERIF}/target/tmp"));
-        let status = std::process::Command::new(std::env::current_exe().unwrap())
+        let spawned = std::process::Command::new(std::env::current_exe().unwrap())
             .args(["c17std", &report])
             .stdin(std::process::Stdio::null())
             .stdout(std::process::Stdio::null())
-            .status();
+            .spawn();
+        // bounded liveness: the child normally needs a few seconds; a coloured write through a real
+        // handle that never returns (an unbounded retry on a descriptor that will not recover) must
+        // not hang the check
+        let limit = env_u64("VERIF_C17_STD_TIMEOUT_S").unwrap_or(600);
+        let status = match spawned {
+            Ok(mut c) => crate::common::wait_with_deadline(&mut c, limit).ok_or(()),
+            Err(_) => Err(()),
+        };
+        let progress = std::fs::read_to_string(format!("{report}.progress")).unwrap_or_default();
+        let _ = std::fs::remove_file(format!("{report}.progress"));
         let text = std::fs::read_to_string(&report).unwrap_or_default();
         let _ = std::fs::remove_file(&report);
+        if status.is_err() && text.is_empty() && !progress.is_empty() {
+            let detail = format!("the single-threaded child making real coloured writes did not finish within {limit} s (it normally takes seconds); it was in: {}", progress.trim());
+            let path = format!("{VERIF}/replays/C17-std-no-progress.json");
+            let doc = json!({"property": "C17", "engine": "c17std", "violation_class": "no-progress", "violation_detail": detail,
+                "replay_cmd": format!("{VERIF}/check replay {path}")});
+            let _ = std::fs::write(&path, serde_json::to_string_pretty(&doc).unwrap());
+            println!("violation class=no-progress (real std handle)\n  {detail}");
+            let _ = write_evidence(&meta, &tier, seed, &batch, 1, &known_hits, json!({}), vec![doc]);
+            println!("VIOLATION property=C17 replay={path}");
+            return ExitCode::from(1);
+        }
         let Ok(rep) = serde_json::from_str::<Value>(&text) else {
             eprintln!("vsim: HARNESS ERROR: c17std child produced no report ({status:?})");
             return ExitCode::from(2);
